@@ -6,6 +6,7 @@ import (
 	"sort"
 	"strings"
 	"sync"
+	"sync/atomic"
 	"time"
 
 	"golang.org/x/tools/go/ssa"
@@ -28,6 +29,9 @@ type Opts struct {
 	ConcCap    int
 	NoRaces    bool            // the harness' property does not include race freedom and its fakes cannot reproduce the timing natively
 	Background map[string]bool // ticker-driven background loops of kevo that are started as (daemon) threads
+	Cross      []string        // second solvers through which the recorded session of one worker is replayed
+	CrossMaxQ  int             // queries recorded for that
+	CrossS     float64         // time allowed to each second solver
 }
 
 // Sample is one terminated path written out for the evidence / for native validation.
@@ -67,6 +71,7 @@ type HarnessResult struct {
 	Stubs        map[string]int
 	Distinct     map[string]bool
 	Hangs        []Violation
+	Cross        []CrossResult
 }
 
 func newRun(m *Machine, s *Solver, prefix []int, o *Opts) *Run {
@@ -100,6 +105,11 @@ func explore(m *Machine, fn *ssa.Function, o *Opts) *HarnessResult {
 		nw = 16
 	}
 	sampleEvery := 1
+	var rec *Recording
+	var recClaimed int32
+	if len(o.Cross) > 0 {
+		rec = &Recording{MaxB: 48 << 20, MaxQ: o.CrossMaxQ}
+	}
 	for w := 0; w < nw; w++ {
 		wg.Add(1)
 		go func() {
@@ -120,6 +130,9 @@ func explore(m *Machine, fn *ssa.Function, o *Opts) *HarnessResult {
 				work = work[:len(work)-1]
 				busy++
 				mu.Unlock()
+				if rec != nil && atomic.CompareAndSwapInt32(&recClaimed, 0, 1) {
+					s.rec = rec // the worker that takes the first path has not talked to its solver yet
+				}
 				r := newRun(m, s, p, o)
 				if o.BudgetS > 0 {
 					r.Deadline = t1.Add(time.Duration((o.BudgetS + 20) * float64(time.Second)))
@@ -267,6 +280,19 @@ func explore(m *Machine, fn *ssa.Function, o *Opts) *HarnessResult {
 	}
 	wg.Wait()
 	res.WallS = time.Since(t1).Seconds()
+	if rec != nil {
+		crs := make([]CrossResult, len(o.Cross))
+		var cw sync.WaitGroup
+		for i, bin := range o.Cross {
+			cw.Add(1)
+			go func() {
+				defer cw.Done()
+				crs[i] = crossCheck(rec, bin, time.Duration(o.CrossS*float64(time.Second)))
+			}()
+		}
+		cw.Wait()
+		res.Cross = crs
+	}
 	res.Remaining = len(work)
 	res.Exhausted = len(work) == 0 && len(res.EngineErrors) == 0
 	return res
